@@ -49,8 +49,8 @@ _TRAPS = None
 
 def trap_blocks():
     """Description blocks built around every alphabetic literal run of the library's patterns ('sec', 'section', 'lot', 'township',
-    'north', 'thru' ...): as the end of a longer word followed by a number, as the start of a longer word, inside a word, and as
-    the end of a word that ends the block.  None of them is a Twp/Rge or section reference."""
+    'north', 'thru' ...): as the end of a longer word followed by a number, as the start of a longer word (in the middle and at the very start of the
+    block), inside a word, and as the end of a word that ends the block.  None of them is a Twp/Rge or section reference."""
     global _TRAPS
     if _TRAPS is None:
         from .c16 import alphabet, derive_alphabet
@@ -58,7 +58,8 @@ def trap_blocks():
         runs = [r for r in getattr(derive_alphabet, 'runs', []) if r.isalpha() and len(r) >= 2]
         _TRAPS = []
         for r in runs:
-            _TRAPS += [f"Parcel along the x{r} 50 feet wide", f"Parcel along the {r}x line", f"Parcel in the x{r}x tract", f"Parcel x{r}"]
+            _TRAPS += [f"Parcel along the x{r} 50 feet wide", f"Parcel along the {r}x line", f"Parcel in the x{r}x tract", f"Parcel x{r}",
+                       f"{r.capitalize()}ond Addition to the city"]        # ... and as the start of the block's first word ('Second ...')
     return _TRAPS
 
 
